@@ -254,6 +254,9 @@ def run(ctx, rep, tier):
 
 def _shared(ctx, rep, tier):
     from .shared import delegate
+    rep.check(ctx.model.has("DFA.append_after", "for state in chained_dfa.states:\n    if state not in self.states:\n        self.add(state)"), "C06.a", "DFA.append_after",
+              "a state appears once in dfa.states (index() names the case label that is executed)", "states can be added to the machine twice: the second copy's case label is dead, "
+              "and labels inside its body are defined twice")
     delegate(ctx, rep, tier, "C17", ("C17.d",), "C06.i", "end(): the per-state end move is taken exactly as the machine's End transition prescribes and the reported code reflects the state reached",
              where="CodegenCtx._generate_end_switch_body")
     delegate(ctx, rep, tier, "C03", ("C03.c",), "C06.j", "string assignment / default templates copy exactly the literal's bytes (+NUL iff terminated) and store its length",
